@@ -86,7 +86,7 @@ class C05(Property):
     min_nontrivial = 10
 
     def _plan(self, ctx: Ctx):
-        n, k = (250, 8) if ctx.tier == "thorough" else (30, 3)
+        n, k = (250, 8) if ctx.tier == "thorough" else (36, 3)
         if ctx.mode == "search":
             n, k = n, 16
         return n, k
@@ -105,17 +105,18 @@ class C05(Property):
     def explore(self, ctx: Ctx) -> None:
         rng = ctx.rng
         n, k = self._plan(ctx)
+        CORP = wfgen.CORPUS + wfgen.ARRIVAL_CORPUS      # boundary workflows + combinators under controlled arrival orders
         lines, metas = [], []
         tfm_lines, tfm_metas = [], []
         items, pre = [], {}
         for i in range(n):
-            if i < len(wfgen.CORPUS):
-                spec = json.loads(json.dumps(wfgen.CORPUS[i]))
+            if i < len(CORP):
+                spec = json.loads(json.dumps(CORP[i]))
             feats = {"exec": 7, "scatter": 5} if rng.random() < 0.45 else ({"cart": 4, "gather": 6} if rng.random() < 0.25 else ({"loop": 3} if rng.random() < 0.25 else None))
-            if i >= len(wfgen.CORPUS):
+            if i >= len(CORP):
                 spec = wfgen.gen_spec(rng, size=rng.randint(2, 12), features=feats)
             seeds = [rng.randrange(1 << 30) for _ in range(k)]
-            if i < len(wfgen.CORPUS):
+            if i < len(CORP):
                 seeds = [2 + j for j in range(k)]      # corpus: fixed schedules, the first one with reverse job completion order
             items.append((spec, seeds))
         for i, (spec, seeds) in enumerate(items):
@@ -127,7 +128,7 @@ class C05(Property):
                 # heavily loaded machine: the plan is "up to n workflows", at least 20 (quick) / 60 (thorough), corpus included
                 ctx.notes.append(f"soft time limit: stopped after {i} of {n} planned workflows")
                 break
-            if i < len(wfgen.CORPUS):
+            if i < len(CORP):
                 ctx.corpus_replayed += 1
             runs = self._runs_for(ctx, pre, items, i, lambda it: {"spec": it[0], "seeds": it[1]}, timeout=30.0, stop_on_hang=True)
             den = wfgen.py_den(spec)
